@@ -292,13 +292,15 @@ def load_known():
     return json.load(open(f)).get("findings", [])
 
 
-def match_known(known, pid, op, result, verdict):
+def match_known(known, pid, op, result, verdict, flavour=None):
     """A finding matches when all its regexes match: 'op' against the op line, 'result' against the implementation's
     result line, 'verdict' against the judge's line.  Only entries with status 'known' suppress."""
     for k in known:
         if k.get("status") != "known":
             continue
         if pid not in k.get("properties", [k.get("property")]):
+            continue
+        if "flavour" in k and k["flavour"] != flavour:
             continue
         if "op" in k and not re.search(k["op"], op):
             continue
@@ -364,7 +366,7 @@ class Run:
                 if nontrivial is None or nontrivial(l, r, v):
                     self.distinct.add(hashlib.sha1(l.encode()).digest()[:8])
             elif kind in ("FAIL", "bad-op"):
-                k = match_known(known, self.pid, l, r, v)
+                k = match_known(known, self.pid, l, r, v, flavour)
                 if k:
                     e = self.known_hits.setdefault(k["id"], [k, 0, l])
                     e[1] += 1
@@ -441,7 +443,7 @@ def replay(pid, path):
     for l, r, v in zip(ops, results, verdicts):
         print(l); print("  impl :", r[:1000]); print("  judge:", v[:1000])
         if v.startswith("FAIL") or v.startswith("bad-op"):
-            if not match_known(known, pid, l, r, v):
+            if not match_known(known, pid, l, r, v, flavour):
                 bad += 1
     return 1 if bad else 0
 
@@ -466,7 +468,7 @@ def finish(run, proof, level_note, rule, extra_cov=None, assumptions=None):
         def still(cand):
             rs, vs = judge_lines([cand], flavour, args)
             v = vs[0]
-            return (v.startswith("FAIL") and (v.split(" ")[1] == tag)) and not match_known(known, pid, cand, rs[0], v)
+            return (v.startswith("FAIL") and (v.split(" ")[1] == tag)) and not match_known(known, pid, cand, rs[0], v, flavour)
         try:
             small = shrink_line(op, flavour, args, still) if len(op) < 600 else op
         except Exception:
